@@ -3,9 +3,10 @@ package main
 // op `c02.dns` (C02): the real DNSEngine.MatchRequest vs the model DNS engine vs
 // the reference scan over all rules.
 //   c02.dns ((idx R|H|K)…) Q psl addrs (pat…) <basic: _ | x<text of Go's NetworkRule>>
-//        = (netTexts…)|<NetworkRule==nil>|(v4…)|(v6…)|<matched>
-// The choice made by GetDNSBasicRule belongs to C06/C07; here Go's choice is an
-// input (the model and the reference check that it is one of the candidates).
+//        = (netTexts…)|<class of NetworkRule: _ = nil, else <exception><important>>|(v4…)|(v6…)|<matched>
+// Which of several tied rules GetDNSBasicRule picks belongs to C06/C07; here Go's choice is an
+// input of the MODEL (which checks that it is one of the candidates); the reference computes the
+// basic rule itself, and its nil-ness and exception/important CLASS are compared (C02's text).
 
 import (
 	"bufio"
@@ -76,10 +77,15 @@ func c02GenLine(r *rng, names []string) string {
 	case 0, 1:
 		return pick(r, []string{"0.0.0.0", "127.0.0.1", "10.0.0.1", "::", "::1", "2001:db8::1", "::ffff:1.2.3.4"}) + " " + d
 	case 2:
-		n := 2 + r.n(3)
+		// names per line: mostly 2..4; 1 line in 8 has MANY (log-scale up to 260, i.e. lines longer than the 4 KiB read buffer: generated names among the scenario's,
+		// so that the name a request asks for may be the 7th, the 40th or the last of its line)
+		n := nCount(r, 2+r.n(3), 8, 5, 260)
 		hs := make([]string, n)
 		for i := range hs {
 			hs[i] = pick(r, names)
+			if n > 4 && r.chance(3, 4) {
+				hs[i] = fmt.Sprintf("m%03d.%s", r.n(1000), pick(r, poolDomains))
+			}
 		}
 		if r.chance(1, 3) {
 			hs[n-1] = hs[0] // a name listed twice on one line
@@ -139,13 +145,20 @@ func c02Gen(r *rng, n int, w *bufio.Writer) {
 	bReseed(r)
 	names := c02Names(r)
 	for i := 0; i < n; {
-		nLists := 1 + r.n(3)
+		// sizes: mostly small; 1 scenario in 16 has MANY lists, 1 in 12 MANY lines (both log-scale)
+		nLists := nCount(r, 1+r.n(3), 16, 4, 80)
 		nLines := 1 + r.n(14)
 		if r.chance(1, 5) {
 			nLines = 1 + r.n(50)
 		}
+		if r.chance(1, 12) {
+			nLines = nLog(r, 50, 400)
+		}
 		ids := append([]int{}, c01ListIDs...)
 		shuffle(r, ids)
+		for k := 0; len(ids) < nLists+2; k++ {
+			ids = append(ids, 10+37*k)
+		}
 		bodies := make([][]string, nLists)
 		// a few names per scenario, shared by the lines and the requests, so that most requests hit
 		focus := subset(r, names, 4)
@@ -159,6 +172,13 @@ func c02Gen(r *rng, n int, w *bufio.Writer) {
 		}
 		if len(focus) < 2 {
 			focus = append(focus, pick(r, poolDomains), pick(r, poolDomains))
+		}
+		if r.chance(1, 5) {
+			// LONG names (log-scale total length up to the 253-byte limit, few long labels or many short ones) among
+			// the names the scenario is about: listed in hosts lines, named by rules, and asked for
+			for k := 1 + r.n(2); k > 0; k-- {
+				focus = append(focus, nLongHost(r, pick(r, poolDomains)))
+			}
 		}
 		var all, used []string
 		for j := 0; j < nLines; j++ {
@@ -178,6 +198,38 @@ func c02Gen(r *rng, n int, w *bufio.Writer) {
 			all = append(all, t)
 			l := r.n(nLists)
 			bodies[l] = append(bodies[l], t)
+		}
+		if r.chance(1, 8) {
+			// a CROWD on one name: a log-scale number (up to 300) of distinct lines that all apply to it -- hosts lines
+			// (one bucket of the host table, both address families), DNS network rules of every class (many candidates
+			// for the basic rule, the deciding one anywhere among them), or both
+			d := pick(r, focus)
+			k := nLog(r, 7, 300)
+			kind := r.n(3)
+			hi := r.n(k) // where the few rules of a higher class go
+			for j := 0; j < k; j++ {
+				var t string
+				if kind == 0 || (kind == 2 && r.chance(1, 2)) {
+					ip := fmt.Sprintf("10.%d.%d.%d", j/65536, j/256%256, j%256)
+					if r.chance(1, 3) {
+						ip = fmt.Sprintf("2001:db8::%x", j+1)
+					}
+					t = ip + " " + d
+					if r.chance(1, 6) {
+						t = ip + " " + fmt.Sprintf("m%03d.example.net ", j) + d
+					}
+				} else {
+					t = "||" + d + "^$" + pick(r, []string{fmt.Sprintf("ctag=~tag_%04d", j), fmt.Sprintf("client=~10.%d.%d.%d", j/65536, j/256%256, j%256),
+						fmt.Sprintf("denyallow=m%04d.example.net", j), fmt.Sprintf("dnstype=~TXT,ctag=~t%d", j)})
+					if j == hi || r.chance(1, 40) {
+						t = pick(r, []string{"@@" + t, t + ",important", "@@" + t + ",important", t + ",badfilter"})
+					}
+				}
+				all = append(all, t)
+				l := r.n(nLists)
+				bodies[l] = append(bodies[l], t)
+			}
+			used = append(used, d, d, d)
 		}
 		if r.chance(1, 4) {
 			// a rule, its $badfilter twin, and AFTER them (in one list, so in match order) the only survivor
@@ -268,9 +320,13 @@ func c02Gen(r *rng, n int, w *bufio.Writer) {
 					basic = wb(res.NetworkRule.RuleText)
 				}
 
-				a := fmt.Sprintf("%s|%s|%s|%s|%s", bSortedTextSet(texts(res.NetworkRules)), wbool(res.NetworkRule == nil),
+				cls := "_"
+				if res.NetworkRule != nil {
+					cls = wbool(res.NetworkRule.Whitelist) + wbool(res.NetworkRule.IsOptionEnabled(rules.OptionImportant))
+				}
+				a := fmt.Sprintf("%s|%s|%s|%s|%s", bSortedTextSet(texts(res.NetworkRules)), cls,
 					c02HostRuleSet(res.HostRulesV4), c02HostRuleSet(res.HostRulesV6), wbool(matched))
-				if a == "()|T|()|()|F" {
+				if a == "()|_|()|()|F" {
 					a = "()" // the all-empty answer (counted as trivial by vcheck)
 				}
 
@@ -278,7 +334,7 @@ func c02Gen(r *rng, n int, w *bufio.Writer) {
 			})
 			var pats []string
 			for _, f := range nets {
-				if p := wpat(f, q.URL, q.Hostname); p != "" {
+				if p := wpat(f, q.URL, q.Hostname); p != "" && !nSeenPat(&pats, p) {
 					pats = append(pats, p)
 				}
 			}
